@@ -130,13 +130,17 @@ Definition spec_lX : nspec := {| n_conv := 88; n_long := true; n_plus := false; 
 Definition spec_lx : nspec := {| n_conv := 120; n_long := true; n_plus := false; n_space := false;
                                  n_zero := false; n_alt := false; n_width := 0; n_prec := None |}.
 
+Definition spec_p020_8lf : nspec := {| n_conv := 102; n_long := true; n_plus := true; n_space := false;
+                                      n_zero := true; n_alt := false; n_width := 20; n_prec := Some 8%nat |}.
+
 Definition ex_items_f : list pitem :=
   [PShow (VFloat 4728057454355442549); PLit [44; 32]; PShow (VStr [97; 34]); PLit [59];
    PNum spec_li (VInt (-7)); PLit [32]; PNum (spec_f true) (VFloat 4591870180066957722); PLit [47];
-   PNum spec_p08d (VInt (-2147483648)); PLit [58]; PNum spec_lX (VInt (-5))].
+   PNum spec_p08d (VInt (-2147483648)); PLit [58]; PNum spec_lX (VInt (-5)); PLit [59];
+   PNum spec_p020_8lf (VFloat 4614256656552045848)].
 Definition ex_sitems_f : list sitem :=
   [SLook TFloat; SLit [44; 32]; SLook TStr; SLit [59]; SNum spec_li; SLit [32]; SNum (spec_f true); SLit [47];
-   SNum spec_d; SLit [58]; SNum spec_lx].
+   SNum spec_d; SLit [58]; SNum spec_lx; SLit [59]; SNum (spec_f true)].
 
 Ltac side :=
   first [ reflexivity | exact I
@@ -160,7 +164,7 @@ Qed.
 
 Example ex_wf_seq_run :
   scan_str rt_cfg (print_items rt_cfg ex_items_f ++ ex_rest) 0 ex_sitems_f []
-  = SOk [VFloat 4728057454355442563; VStr [97; 34]; VInt (-7); VFloat 4591870180066957722; VInt (-2147483648); VInt (-5)] 64.
+  = SOk [VFloat 4728057454355442563; VStr [97; 34]; VInt (-7); VFloat 4591870180066957722; VInt (-2147483648); VInt (-5); VFloat 4614256656543962353] 85.
 Proof. vm_compute. reflexivity. Qed.
 
 (* Int through a numeric specification: signed decimal directives with flags and width, unsigned
